@@ -737,6 +737,8 @@ def r13(ctx):
         for i, fd in enumerate(f.adt(adt)["variants"][0]["fields"]):
             out[fd["name"]] = E.describe(itp.resolve(v[3].get(i)), f) if (v is not None and v[0] == "adt") else "?"
         return out
+    # private helpers of the module are evaluated also when all their arguments are opaque (a shared `key_filter_bytes(key)`)
+    helpers = tuple(p for p, hb in f.bodies.items() if p.startswith("store::") and not p.startswith("store::fs::") and not hb.rec.get("derived") and hb.kind != "closure")
     spec = [
         ("store::QueryBuilder::<K>::include_empty", [], {"include_empty": "1"}),
         ("store::QueryBuilder::<K>::key_exact", ["arg.key"], {"filter_key": "Exact(arg.key)"}),
@@ -758,7 +760,7 @@ def r13(ctx):
         want.update(changes)
         key = "builder[%s]" % path.split("::")[-1]
         try:
-            ret, itp = E.run_it(f, path, [E.struct(f, QB, **init)] + [E.Tok(x) for x in params], {}, oracle)
+            ret, itp = E.run_it(f, path, [E.struct(f, QB, **init)] + [E.Tok(x) for x in params], {}, oracle, inline=helpers)
             got = render(itp, ret, QB)
         except E.Unsupported as e:
             ctx.bad("C05.R13", path, key, "UNSUPPORTED-FORM: %s" % e, b.sp)
